@@ -33,10 +33,15 @@ func init() {
 			r.Violation(v.Sig, v.Detail, map[string]interface{}{"engine": "bfs", "check": "C04", "tier": "script", "history": v.History})
 		}
 		r.Count("part3_scripted_relay_steps", int64(steps))
+		// part 4: the registry itself — enumeration and authorisation after export/import agree with what was registered
+		e4, n4 := c06.Registry(r)
+		r.Count("part4_registry_evaluations", e4)
+		e1 += e4
+		n1 += n4
 		e1 += e2 + int64(steps)
 		n1 += n2
 		return r.Finish(ev.Coverage{Evaluations: e1, Distinct: n1, Exhaustive: true,
-			Rule: "part 1: every relayer registry over {r1,r2,TSS account} x counterparties {B,C} (all chain lists incl. both orders, plus re-registration histories) x signer {r1,r2,TSS account,outsider} x message {update, receive of an ordinary transfer, receive of a packet whose callback reverts outright (error acknowledgement written by the message server), ack} x chain {B,C} x client kind of B {tendermint, TSS, TSS rotated to another account by a governance upgrade}; each message otherwise valid (real headers, proofs), delivered through DeliverTx on a fork of one prepared three-chain world; oracle = predicate of the statement, store dumps unchanged on rejection, ack.Relayer = registered counterparty address. distinct_nontrivial = number of accepted messages + privileged methods with a working positive control. part 2: every non-view method of the packet, endpoint and execute contracts read from the embedded ABIs at run time (except crossChainCall/addPacketFee) with well-formed arguments x caller path {EOA transaction, hand-assembled forwarder contract, execute contract called directly by a user, call data of a received cross-chain packet}; oracle: call fails and store dumps unchanged; positive control: the same call from the chain's own module/contract addresses succeeds. part 3: scripted relay histories with a look-alike PacketSent log emitted by an ordinary contract between real sends (no xibc record or counter may change)",
+			Rule: "part 1: every relayer registry over {r1,r2,TSS account} x counterparties {B,C} (all chain lists incl. both orders, plus re-registration histories) x signer {r1,r2,TSS account,outsider} x message {update, receive of an ordinary transfer, receive of a packet whose callback reverts outright (error acknowledgement written by the message server), ack} x chain {B,C} x client kind of B {tendermint, TSS, TSS rotated to another account by a governance upgrade}; each message otherwise valid (real headers, proofs), delivered through DeliverTx on a fork of one prepared three-chain world; oracle = predicate of the statement, store dumps unchanged on rejection, ack.Relayer = registered counterparty address. distinct_nontrivial = number of accepted messages + privileged methods with a working positive control. part 2: every non-view method of the packet, endpoint and execute contracts read from the embedded ABIs at run time (except crossChainCall/addPacketFee) with well-formed arguments x caller path {EOA transaction, hand-assembled forwarder contract, execute contract called directly by a user, call data of a received cross-chain packet}; oracle: call fails and store dumps unchanged; positive control: the same call from the chain's own module/contract addresses succeeds. part 4: every assignment of six chain lists to three relayers: the registry enumeration (keeper and gRPC query) lists each relayer with exactly its own chains and addresses, and after the client module's export and import every relayer is authorised for exactly its chains. part 3: scripted relay histories with a look-alike PacketSent log emitted by an ordinary contract between real sends (no xibc record or counter may change)",
 			Bounds: map[string]interface{}{"tier": tier},
 			Assumptions: []string{"SDK signature verification trusted", "registry has no delete: 'not registered' is modelled as registered for an unused chain only"}})
 	}}
